@@ -7,6 +7,8 @@ import (
 	"sort"
 	"strings"
 
+	"google.golang.org/protobuf/types/known/timestamppb"
+
 	"github.com/mutagen-io/mutagen/pkg/selection"
 	"github.com/mutagen-io/mutagen/pkg/synchronization"
 	"github.com/mutagen-io/mutagen/pkg/synchronization/core"
@@ -694,11 +696,171 @@ func c40Lists(r *vk.Run, h *scripted.Harness) {
 	}
 }
 
+// c40CraftedTimes: listing order with creation times chosen by the PRNG.
+// Sessions are created (paused) through the real Manager, the manager is shut
+// down, every saved session record gets a CreationTime from a small grid
+// (seconds s, s+1, s+2, s+40000; nanoseconds 0, 1, 5e8, 999999999 - so that
+// later seconds meet smaller nanoseconds, equal seconds meet different
+// nanoseconds, and fully equal times occur), and a fresh Manager loads them.
+// Every listing has to be sorted by (Seconds, Nanos) lexicographically; sessions
+// with fully equal times may come in either order.
+func c40CraftedTimes(r *vk.Run, h *scripted.Harness) {
+	rng := r.Rand("crafted-times")
+	rounds := r.Pick(40, 600)
+	ctx := context.Background()
+	const base = int64(1700000000)
+	secs := []int64{base, base + 1, base + 2, base + 40000}
+	nanos := []int32{0, 1, 500000000, 999999999}
+	type stamp struct {
+		ID    string
+		S     int64
+		N     int32
+		Group string
+	}
+	less := func(a, b stamp) bool { return a.S < b.S || (a.S == b.S && a.N < b.N) }
+	for round := 0; round < rounds; round++ {
+		n := 2 + rng.Intn(11)
+		var sessions []stamp
+		for i := 0; i < n; i++ {
+			st := stamp{S: secs[rng.Intn(len(secs))], N: nanos[rng.Intn(len(nanos))], Group: []string{"a", "b"}[rng.Intn(2)]}
+			switch {
+			case i == 0: // a pair with later seconds and smaller nanoseconds in every round
+				st.S, st.N = secs[rng.Intn(3)], nanos[2+rng.Intn(2)]
+			case i == 1:
+				st.S, st.N = sessions[0].S+1, nanos[rng.Intn(2)]
+			case i == 2 && rng.Intn(2) == 0: // fully equal times
+				k := rng.Intn(2)
+				st.S, st.N = sessions[k].S, sessions[k].N
+			}
+			id, err := h.Manager().Create(ctx, scripted.LocalURL(fmt.Sprintf("/nonexistent/c40t/%d/%d/alpha", round, i)), scripted.LocalURL(fmt.Sprintf("/nonexistent/c40t/%d/%d/beta", round, i)),
+				&synchronization.Configuration{}, &synchronization.Configuration{}, &synchronization.Configuration{}, "", map[string]string{"grp": st.Group}, true, "")
+			if err != nil {
+				r.Inconclusive("crafted-times-create-failed")
+				continue
+			}
+			st.ID = id
+			sessions = append(sessions, st)
+		}
+		fmt.Printf("crafted-times round %d: %d sessions\n", round, len(sessions))
+		rewriteFailed := false
+		if err := h.RestartBetween(func() {
+			for _, st := range sessions {
+				rec, err := scripted.LoadSession(st.ID)
+				if err == nil {
+					rec.CreationTime = &timestamppb.Timestamp{Seconds: st.S, Nanos: st.N}
+					err = scripted.SaveSession(rec)
+				}
+				if err != nil {
+					rewriteFailed = true
+				}
+			}
+		}); err != nil || rewriteFailed {
+			r.Inconclusive("crafted-times-rewrite-or-restart-failed")
+			h.Manager().Terminate(ctx, &selection.Selection{All: true}, "")
+			continue
+		}
+		byID := map[string]stamp{}
+		for _, st := range sessions {
+			byID[st.ID] = st
+		}
+		for q := 0; q < 6; q++ {
+			sel := &selection.Selection{}
+			expected := map[string]bool{}
+			kind := ""
+			switch q % 3 {
+			case 0:
+				kind = "all"
+				sel.All = true
+				for _, st := range sessions {
+					expected[st.ID] = true
+				}
+			case 1:
+				kind = "labels"
+				g := []string{"a", "b"}[rng.Intn(2)]
+				sel.LabelSelector = "grp=" + g
+				if rng.Intn(3) == 0 {
+					sel.LabelSelector = "grp in (a,b)"
+					g = ""
+				}
+				for _, st := range sessions {
+					if g == "" || st.Group == g {
+						expected[st.ID] = true
+					}
+				}
+			default:
+				kind = "specifications"
+				for _, k := range rng.Perm(len(sessions))[:1+rng.Intn(len(sessions))] {
+					sel.Specifications = append(sel.Specifications, sessions[k].ID)
+					expected[sessions[k].ID] = true
+				}
+			}
+			r.Eval(1)
+			_, states, err := h.Manager().List(ctx, sel, 0)
+			var listed []string
+			for _, s := range states {
+				t := s.Session.CreationTime
+				listed = append(listed, fmt.Sprintf("%s@%d.%09d", s.Session.Identifier[:10], t.GetSeconds()-base, t.GetNanos()))
+			}
+			witness := map[string]any{"crafted": sessions, "selection": map[string]any{"all": sel.All, "specifications": sel.Specifications, "label_selector": sel.LabelSelector}, "listed(id@seconds-base.nanos)": listed, "error": fmt.Sprint(err)}
+			sig := func(check string) map[string]string {
+				return map[string]string{"part": "crafted-creation-times", "kind": kind, "check": check}
+			}
+			if err != nil {
+				r.Violation(sig("unexpected-error"), "List failed on sessions loaded with crafted creation times: "+err.Error(), witness)
+				continue
+			}
+			exact := len(states) == len(expected)
+			for _, s := range states {
+				st, ok := byID[s.Session.Identifier]
+				if !ok || !expected[s.Session.Identifier] {
+					exact = false
+				} else if s.Session.CreationTime.GetSeconds() != st.S || s.Session.CreationTime.GetNanos() != st.N {
+					r.Inconclusive("crafted-time-not-loaded")
+					exact = false
+				}
+			}
+			if !exact {
+				r.Violation(sig("wrong-set"), fmt.Sprintf("List returned %d states for %d matching sessions", len(states), len(expected)), witness)
+				continue
+			}
+			for i := 1; i < len(states); i++ {
+				a, b := byID[states[i-1].Session.Identifier], byID[states[i].Session.Identifier]
+				if less(b, a) {
+					r.Violation(sig("not-ordered-by-creation-time"), fmt.Sprintf("List is not ordered by creation time: %d.%09d is listed before %d.%09d", a.S-base, a.N, b.S-base, b.N), witness)
+					break
+				}
+			}
+			// What the expected order of this listing exercises.
+			var exp []stamp
+			for id := range expected {
+				exp = append(exp, byID[id])
+			}
+			sort.Slice(exp, func(i, j int) bool { return less(exp[i], exp[j]) })
+			for i := 1; i < len(exp); i++ {
+				switch {
+				case exp[i-1].S < exp[i].S && exp[i-1].N > exp[i].N:
+					r.Count("adjacent_pairs_later_seconds_smaller_nanos", 1)
+				case exp[i-1].S == exp[i].S && exp[i-1].N != exp[i].N:
+					r.Count("adjacent_pairs_equal_seconds_different_nanos", 1)
+				case exp[i-1].S == exp[i].S && exp[i-1].N == exp[i].N:
+					r.Count("adjacent_pairs_fully_equal_times", 1)
+				}
+			}
+			r.Count("crafted_time_listings", 1)
+			r.Distinct(fmt.Sprintf("crafted|%s|%d", kind, len(exp)))
+		}
+		if err := h.Manager().Terminate(ctx, &selection.Selection{All: true}, ""); err != nil {
+			r.Inconclusive("crafted-times-cleanup-failed")
+		}
+	}
+}
+
 func c40() {
 	r := vk.Start("C40", "exploration")
 	c40PathOrder(r)
 	h := newHarness()
 	c40Selection(r, h)
+	c40CraftedTimes(r, h)
 	c40Lists(r, h)
 	h.Close()
 	r.Assume("specifications are exact identifiers or names (the prefix matching mentioned in selection.proto is not exercised: the property speaks of matching, and the manager matches exactly)")
@@ -710,8 +872,13 @@ func c40() {
 		"manager.go: specification matches a name prefix -> wrong-set, miss-not-reported",
 		"fastpath.go: exhausted first path no longer sorts first -> agreement-with-component-wise-reference, totality, negative-transitivity, sort-equals-depth-first-walk",
 		"controller.go: currentState hands out the live state, so List truncates it in place -> count with repeated_listing=true (254 violations: stale Excluded* after a cycle recorded a list at or below the maximum)",
+		"manager.go: List comparator without the 'Seconds ==' guard (Seconds < || Nanos <) -> not-ordered-by-creation-time part=crafted-creation-times (sessions loaded with crafted creation times)",
 		"not caught because equivalent: 'len > maximum' changed to 'len >= maximum' (same list, Excluded 0)",
 	})
+	if r.Counter("adjacent_pairs_later_seconds_smaller_nanos") == 0 {
+		r.Inconclusive("control failed: no listing with later seconds and smaller nanoseconds")
+		r.Finish("liveness control failed", 1<<30)
+	}
 	if r.Counter("truncated_lists") == 0 || r.Counter("listings_with_two_or_more_states") == 0 {
 		r.Inconclusive("control failed: no truncated list or no multi-session listing observed")
 		r.Finish("liveness control failed", 1<<30)
